@@ -26,6 +26,7 @@ type c11Case struct {
 	Ck       []bool   `json:"ck"`       // checkpoint flags
 	Revs     []string `json:"revs"`     // versions having a revision (ascending)
 	Partial  bool     `json:"partial"`  // is the last revision partially applied
+	Resolved bool     `json:"resolved,omitempty"` // ... and was it then marked by `migrate set` (Execute|Resolved)
 	Cfg      MCfg     `json:"cfg"`
 }
 
@@ -55,6 +56,9 @@ func (c *c11Case) revs() []MRev {
 		if c.Partial && i == len(c.Revs)-1 {
 			r.A = 1
 			r.Ph = []string{"h1:x"}
+			if c.Resolved {
+				r.Ty = 6
+			}
 		}
 		out = append(out, r)
 	}
@@ -121,7 +125,11 @@ func runPendingImpl(c *c11Case) (*c11Out, []MFile, error) {
 func verOf(name string) string { return strings.SplitN(name, "_", 2)[0] }
 
 // c11Monitor: the documented semantics, clause by clause, on an answer.
-func c11Monitor(c *c11Case, o *c11Out) (bool, string, string) {
+func c11Monitor(c0 *c11Case, o *c11Out) (bool, string, string) {
+	// a partially applied revision that `migrate set` marked resolved counts as applied
+	cc := *c0
+	cc.Partial = c0.Partial && !c0.Resolved
+	c := &cc
 	if o.Err == "panic" {
 		return false, "panic", "Pending panicked"
 	}
@@ -328,9 +336,9 @@ func c11Cases(maxN int, withMissing bool) []c11Case {
 						revs = append(revs, pool[i])
 					}
 				}
-				for _, partial := range []bool{false, true} {
+				for _, partial := range []int{0, 1, 2} {
 					for _, order := range []string{"linear", "linear-skip", "non-linear"} {
-						out = append(out, c11Case{Versions: vs, Ck: ck, Revs: revs, Partial: partial, Cfg: MCfg{Order: order, Clean: true}})
+						out = append(out, c11Case{Versions: vs, Ck: ck, Revs: revs, Partial: partial > 0, Resolved: partial == 2, Cfg: MCfg{Order: order, Clean: true}})
 					}
 				}
 			}
@@ -367,7 +375,7 @@ func runC11(e *Env) error {
 		}
 		cases = c11Cases(n, true)
 		e.Res.Exhaustive = true
-		e.Res.Rule = fmt.Sprintf("exhaustive: directories of 0..%d versions x every checkpoint subset x {first run with clean/dirty/allow-dirty/baseline=each version or unknown} + {every non-empty subset of (versions + two versions without file) recorded, last revision complete or partial} x {linear, linear-skip, non-linear}; non-trivial = at least one file and one revision or a first-run flag; distinct by the whole case", n)
+		e.Res.Rule = fmt.Sprintf("exhaustive: directories of 0..%d versions x every checkpoint subset x {first run with clean/dirty/allow-dirty/baseline=each version or unknown} + {every non-empty subset of (versions + two versions without file) recorded, last revision complete, partial, or partial and marked resolved by `migrate set`} x {linear, linear-skip, non-linear}; non-trivial = at least one file and one revision or a first-run flag; distinct by the whole case", n)
 	}
 	parallel(e.Workers, len(cases), func(i int) {
 		c := cases[i]
@@ -410,7 +418,7 @@ func runC11(e *Env) error {
 			tag = "ok"
 		}
 		e.Res.Count(hxJSON(c), len(c.Versions) > 0 && (len(c.Revs) > 0 || !c.Cfg.Clean || c.Cfg.Baseline != "" || nck > 0),
-			tag, fmt.Sprintf("n:%d", len(c.Versions)), fmt.Sprintf("ck:%d", nck), "order:"+c.Cfg.Order, fmt.Sprintf("partial:%v", c.Partial))
+			tag, fmt.Sprintf("n:%d", len(c.Versions)), fmt.Sprintf("ck:%d", nck), "order:"+c.Cfg.Order, fmt.Sprintf("partial:%v", c.Partial), fmt.Sprintf("resolved:%v", c.Resolved))
 		if len(c.Versions) >= 3 && len(c.Revs) >= 1 && nck >= 1 {
 			e.Res.Sample(map[string]any{"case": c, "impl": impl}, 6)
 		}
